@@ -259,8 +259,17 @@ func compareCert(s certSpec, tmpl *x509.Certificate, got *smx509.Certificate, de
 	if err := cmpName("Subject", got.Subject, got.RawSubject, tmpl.Subject); err != nil {
 		return err
 	}
-	if !got.NotBefore.Equal(tmpl.NotBefore) || !got.NotAfter.Equal(tmpl.NotAfter) {
-		return fmt.Errorf("validity parsed [%v, %v], template [%v, %v]", got.NotBefore, got.NotAfter, tmpl.NotBefore.UTC(), tmpl.NotAfter.UTC())
+	// the encodings carry whole seconds in UTC: zone and sub-second part of the template are normalised away
+	wantNB, wantNA := tmpl.NotBefore.UTC().Truncate(time.Second), tmpl.NotAfter.UTC().Truncate(time.Second)
+	if !got.NotBefore.Equal(wantNB) || !got.NotAfter.Equal(wantNA) {
+		return fmt.Errorf("validity parsed [%v, %v], template [%v, %v]", got.NotBefore.Format(time.RFC3339), got.NotAfter.Format(time.RFC3339), wantNB.Format(time.RFC3339), wantNA.Format(time.RFC3339))
+	}
+	if nb, na, err := certValidityOf(der); err != nil {
+		return fmt.Errorf("strict DER reader: validity: %v", err)
+	} else if err := checkTimeEncoding("NotBefore", nb, tmpl.NotBefore); err != nil {
+		return err
+	} else if err := checkTimeEncoding("NotAfter", na, tmpl.NotAfter); err != nil {
+		return err
 	}
 	if got.KeyUsage != tmpl.KeyUsage {
 		return fmt.Errorf("KeyUsage parsed %d, template %d", got.KeyUsage, tmpl.KeyUsage)
@@ -410,6 +419,21 @@ func checkCertRoundTrip(c rtCase, r *h.Rec) error {
 		r.Label("serial-generated")
 	}
 	r.Label("bc-%d", s.BC)
+	for _, off := range []int64{s.NotBeforeOff, s.NotAfterOff} {
+		switch y := toTime(off, 0).Year(); {
+		case y == 1950:
+			r.Label("time-year-1950")
+		case y == 2049 || y == 2050:
+			r.Label("time-year-2049-2050")
+		case y < 1950:
+			r.Label("time-before-1950")
+		case y > 2050:
+			r.Label("time-after-2050")
+		}
+	}
+	if s.Nanos != 0 {
+		r.Label("time-with-subsecond-part")
+	}
 
 	// tmpl stays pristine for the comparisons; use is what the library sees
 	tmpl, use := toTemplate(s), toTemplate(s)
@@ -600,6 +624,14 @@ func goX509CertCheck(der, parentDER []byte, gate bool) error {
 	xp, err := x509.ParseCertificate(parentDER)
 	if err != nil {
 		return fmt.Errorf("%w: %v", errGoParse, err)
+	}
+	if sc, err := smx509.ParseCertificate(der); err == nil {
+		if !sc.NotBefore.Equal(xc.NotBefore) || !sc.NotAfter.Equal(xc.NotAfter) {
+			return fmt.Errorf("validity parsed by smx509 [%v, %v] and by Go's crypto/x509 [%v, %v] differ", sc.NotBefore, sc.NotAfter, xc.NotBefore, xc.NotAfter)
+		}
+		if !bytes.Equal(sc.RawIssuer, xc.RawIssuer) || !bytes.Equal(sc.RawSubject, xc.RawSubject) || sc.SerialNumber.Cmp(xc.SerialNumber) != 0 {
+			return fmt.Errorf("issuer / subject / serial parsed by smx509 and by Go's crypto/x509 differ")
+		}
 	}
 	err = xc.CheckSignatureFrom(xp)
 	if gate && err != nil {
